@@ -57,7 +57,10 @@ TInit == /\ l = 1 /\ ms = MSInit /\ b = [t |-> 0] /\ lastline = 0 /\ second = FA
 R2Keep == {"C01_LeafCount", "C01_ContentEqual", "C01_FileNames", "C01_ReaderProblems", "C01_AllMultipartsClosed", "C01_BoundaryNesting",
            "C01_BoundaryDeclared", "C01_BoundaryUnique", "C01_EpilogueEmpty", "C01_NothingAfterEnd", "C02_TopFields",
            "C02_PartFields", "C02_HeaderSyntax", "C02_NoControlInHeader", "C02_HeaderSectionEnds", "C02_SingleOccurrence"}
-Tag(S) == IF second THEN {"C10_R2_" \o p : p \in S \cap R2Keep} ELSE S
+(* C18: the second rendering is output of the library as well: its line discipline (top-level header sections and encoded bodies; *)
+(* the part headers are the open finding of the first rendering) is reported under C18                                            *)
+R2Lines == {"C18_HeaderLineLength", "C18_CRLF", "C18_NoBareCR", "C18_EncodedLineLength"}
+Tag(S) == IF second THEN {"C10_R2_" \o p : p \in S \cap R2Keep} \cup {"C18_R2_" \o p : p \in S \cap R2Lines} ELSE S
 
 (* X02: a message with a PGP type lies outside the builder calls C01 quantifies over; what the C01 monitors find in  *)
 (* its rendering is reported under X02                                                                               *)
